@@ -149,3 +149,10 @@ Lemma sort_uniq_in l x : In x (sort_uniq l) <-> In x l.
 Proof. unfold sort_uniq, ssort. rewrite isort_in. apply nodup_In. Qed.
 Lemma sort_uniq_nodup l : NoDup (sort_uniq l).
 Proof. unfold sort_uniq, ssort. eapply Permutation_NoDup; [symmetry; apply isort_perm|]. apply NoDup_nodup. Qed.
+
+Lemma sort_uniq_ext l l' : (forall x, In x l <-> In x l') -> sort_uniq l = sort_uniq l'.
+Proof.
+  intros H. unfold sort_uniq. apply ssort_perm_eq.
+  - rewrite map_id. apply NoDup_nodup.
+  - apply NoDup_Permutation; try apply NoDup_nodup. intros x. rewrite !nodup_In. apply H.
+Qed.
